@@ -1,7 +1,56 @@
 package main
 
+import (
+	"fmt"
+	"go/ast"
+	"strings"
+)
+
 // C17: the clip arithmetic of types/validator_set.go (T1)
 func init() {
 	register("ValSetArith", t1Module("types/validator_set.go",
 		[]string{"safeMul", "safeAdd", "safeSub", "safeMulClip", "safeAddClip", "safeSubClip"}, nil))
+}
+
+// C17 (T2): every place in consensus/ where a validator set is rotated (IncrementAccum): the function, how the rotated set was
+// obtained (the defining assignment of the receiver, when it is a local variable) and the rotation count expression.
+func init() {
+	register("C17Facts", func(e *env) (string, error) {
+		var rows []string
+		for _, file := range []string{"consensus/state.go", "consensus/validation.go", "consensus/execution.go"} {
+			f, err := e.parse(file)
+			if err != nil {
+				return "", err
+			}
+			for _, d := range f.Decls {
+				fd, ok := d.(*ast.FuncDecl)
+				if !ok || fd.Body == nil {
+					continue
+				}
+				defs := map[string]string{}
+				ast.Inspect(fd.Body, func(x ast.Node) bool {
+					switch n := x.(type) {
+					case *ast.AssignStmt:
+						if len(n.Lhs) == 1 && len(n.Rhs) == 1 {
+							if id, ok := n.Lhs[0].(*ast.Ident); ok {
+								defs[id.Name] = src(e, n.Rhs[0])
+							}
+						}
+					case *ast.CallExpr:
+						if sel, ok := n.Fun.(*ast.SelectorExpr); ok && sel.Sel.Name == "IncrementAccum" && len(n.Args) == 1 {
+							recv := src(e, sel.X)
+							if id, ok := sel.X.(*ast.Ident); ok && defs[id.Name] != "" {
+								recv = defs[id.Name]
+							}
+							rows = append(rows, fmt.Sprintf("  (%s, %s, %s)", c02Str(file+":"+fd.Name.Name), c02Str(recv), c02Str(src(e, n.Args[0]))))
+							e.facts = append(e.facts, fact{Module: "C17Facts", Kind: "rotation", Name: fd.Name.Name, Value: []string{recv, src(e, n.Args[0])}, Pos: file})
+						}
+					}
+					return true
+				})
+			}
+		}
+		return "/-- (function, the set that is rotated, rotation count) for every IncrementAccum call in consensus/ -/\ndef rotationSites : List (String × String × String) := [\n" +
+			strings.Join(rows, ",\n") + "\n]\n", nil
+	})
 }
